@@ -172,3 +172,13 @@ def evolution_alphas(eko_path, points):
             assert op.q2_to == mu2 and op.nf == nf
             out.append(float(4.0 * math.pi * op.a_s[1]))
     return out
+
+
+def coupling_at_listed(eko_path, points):
+    """4 pi a_s of the solver's coupling object (as the runner builds it from the archive's cards) at (mu2, nf)."""
+    from eko.io.struct import EKO
+    from eko.runner import parts
+
+    with EKO.read(eko_path) as e:
+        sc = parts._managers(e).couplings
+        return [float(4.0 * math.pi * sc.a_s(mu2, nf_to=nf)) for mu2, nf in points]
